@@ -4,6 +4,11 @@ import json, os, sys
 ROOT = os.path.dirname(os.path.dirname(os.path.abspath(__file__)))
 
 CHECKS = {
+ "C04": ("exploration",
+         "property-based testing (proptest): replay round-trip oracle over generated tick sequences; diff/apply oracle over sampled ordered pairs of an enumerated micro-universe and over mutation-walk pairs",
+         "Every patch committed by generated tick sequences must replay (apply_to_state, apply_to_worldline_state, jump_to_tick) to exactly the produced state and root, and the commit id must bind root/parents/patch digest/policy; for ordered state pairs apply(diff(a,b),a) must be Ok(b) or a typed error - never a third state. Exploration: sampled (micro-universe of 9 930 states has 98.6M ordered pairs; thorough samples 20M).",
+         "Uses the echo_verif diff_state wrapper for pairs not reachable through one tick. State equality = public-accessor dump.",
+         "DESIGN.md §4 C04"),
  "C01": ("exploration",
          "property-based testing (proptest): enqueue-permutation metamorphic relation + independent reference tick model + remove-rejected metamorphic relation + scheduler differential",
          "Generated multi-instance states and data-driven rewrite programs (DSL interpreted by fixed fn-pointer rules), candidate sets on both sides of the 1024 threshold (incl. exactly 1023/1024/1025), k enqueue permutations with duplications each: snapshot, receipt, patch and state dump must be bit-equal; receipt, post-state and the set of changed slots must equal an independent reference model written from the spec; dropping rejected candidates must change nothing but the receipt; Radix and Legacy must agree. Exploration: sampled, seeded, shrinking to a replay file.",
